@@ -236,7 +236,26 @@ def run(ctx, case):
                             except Exception:
                                 why = "gate_failed"
                         if why:
-                            ctx.counters["c14|bms_write_skipped_outside_writer_domain"] += 1
+                            import checks.C05 as c05
+                            seed_ = op[-1]
+                            cc = c05.gen(random.Random(seed_), "quick", seed_)
+                            while cc["cls"] == "from_read":
+                                seed_ += 1
+                                cc = c05.gen(random.Random(seed_), "quick", seed_)
+                            with ctx.quiet():
+                                wobj = c05.build(cc)
+                                if r.random() < 0.5:
+                                    wobj.ln_end_channel = b""   # as read from a file that declares no #LNOBJ
+                            cfg = getattr(BMSChannel, cc["layout"])
+                            if name == "write":
+                                wobj.write(cfg)
+                            else:
+                                d = tempfile.mkdtemp(prefix="c14_")
+                                try:
+                                    wobj.write_file(os.path.join(d, "out.bms"), cfg)
+                                finally:
+                                    import shutil
+                                    shutil.rmtree(d, ignore_errors=True)
                             continue
                     if name == "write":
                         obj.write()
